@@ -37,6 +37,11 @@ def cases(tier, seed):
         c = dict(c)
         c["delay"] = {"mode": "choice", "arity": 3}
         out.append((sc + "/shipped", c))
+    # (1b) reservations taken and released one after the other, a later
+    #      ingest (1-2 machines) starting while a later workflow runs
+    for sc, c in common.add_algs(common.batch_seq_scope(lvl),
+                                 common.batch_seq_algs):
+        out.append((sc, c))
     # (2) adversaries
     adv_base = common.thin(base, 6 if tier == "thorough" else 7)
     for sc, c in adv_base:
